@@ -1305,9 +1305,12 @@ class Path:
 PATH = Path()
 
 
-def explore(fn, max_paths=256):
+def explore(fn, max_paths=None):
     """run fn() under every decision script; yields (taken, result).  The consumer's loop body runs on the same path (its
     decisions replay by key); a decision it meets for the first time there is not explored and is recorded as such"""
+    if max_paths is None:
+        import os as _os
+        max_paths = 256 if _os.environ.get("OASVERIF_TIER", "quick") != "thorough" else 2048
     todo = [[]]
     n = 0
     try:
